@@ -23,7 +23,10 @@ Inductive case :=
            (srcn : value)                       (* the normalized source as Merge sees it *)
            (dst_before : snap) (src_before src_after : snap) (dst_after : snap)
            (merge_failed : bool)
-           (follows : list follow).
+           (follows : list follow)
+| CAlias10 (what : string) (before after : value) (keys : list string).
+    (* a merge into one setting of the destination: the settings [keys] of the destination, which
+       the source does not mention, must hold the same contents afterwards *)
 
 Definition src_keys (v : value) : list string := match v with VSub d _ => map fst d | _ => [] end.
 Definition src_len (v : value) : option nat :=
@@ -44,12 +47,14 @@ Definition model_agrees (c : case) : bool :=
       | Err _ _ => false
       | _ => true
       end
+  | CAlias10 _ _ _ _ => true
   end.
 
 Definition skipped (c : case) : bool :=
   match c with
   | CMerge10 h _ srcn db _ _ _ failed _ =>
     negb failed && match merge_root (plain_opts h) (sn_tree db) srcn with OutOfModel => true | _ => false end
+  | CAlias10 _ _ _ _ => false
   end.
 
 (* the follow-ups: the side that was not operated on is unchanged (contents and identities) *)
@@ -63,7 +68,10 @@ Fixpoint follows_ok (src dst : snap) (fs : list follow) : bool :=
   end.
 
 Definition src_untouched (c : case) : bool :=
-  match c with CMerge10 _ _ _ _ sb sa _ _ _ => snap_eqb sb sa end.
+  match c with CMerge10 _ _ _ _ sb sa _ _ _ => snap_eqb sb sa | _ => true end.
+
+Definition setting_of (k : string) (v : value) : option value :=
+  match v with VSub d _ => match dict_get k d with Some (_, x) => Some x | None => None end | _ => None end.
 
 Definition prop_holds (c : case) : bool :=
   match c with
@@ -74,6 +82,12 @@ Definition prop_holds (c : case) : bool :=
     parented (parent_of (sn_ids da)) (sn_ids da) &&
     parented (parent_of (sn_ids sa)) (sn_ids sa) &&
     follows_ok sa da fs
+  | CAlias10 _ b a keys =>
+    forallb (fun k => match setting_of k b, setting_of k a with
+                      | Some x, Some y => value_eqb x y
+                      | None, None => true
+                      | _, _ => false
+                      end) keys
   end.
 
 (* known-finding signature 11: an embedded config keeps its contents and objects but is given
